@@ -338,8 +338,176 @@ E6 == Entry("deep", <<E6_catalog, E6_library, E6_people>>, <<E6_U1, E6_U2, E6_U3
      Op(Doc(<< Fo("grid", <<Fl("isbn"), Fo("authors", <<Fo("books", <<Fl("title")>>)>>)>>) >>, <<>>, <<>>), <<>>),
      Op(Doc(<< Fo("grid", <<Fl("title")>>) >>, <<>>, <<>>), <<>>) >>)
 
+\* ============================================================================ E7 "values"
+\* enums (output, argument, inside an input object), input-object and list arguments (literal, variable, variable
+\* nested in a literal), custom scalars (a string-valued one and a JSON-valued one), arguments of these kinds on an
+\* entity field that lives in another subgraph, an @inaccessible key field
+E7_shop == SG("shop", <<
+  Obj("Query", <<>>, <<>>, << FA("books", NN(Li(NN(Ty("Book")))), "genre", Ty("Genre")),
+                              FA("find", Li(Ty("Book")), "filter", NN(Ty("BookFilter"))),
+                              FA("byIds", NN(Li(Ty("Book"))), "ids", NN(Li(NN(TID)))) >>),
+  Enum("Genre", <<"SCIFI", "DRAMA">>),
+  Input("BookFilter", << F("genre", Ty("Genre")), F("minPages", TInt), F("tags", Li(NN(TStr))) >>),
+  Scalar("Meta"),
+  Obj("Book", <<Key(<<FS("sn")>>)>>, <<>>, << Inacc(F("sn", NN(TID))), F("title", NN(TStr)), F("genre", NN(Ty("Genre"))), F("meta", Ty("Meta")) >>) >>)
+E7_stats == SG("stats", <<
+  Enum("Genre", <<"SCIFI", "DRAMA">>),
+  Input("Opts", << F("deep", NN(TBool)), F("keys", NN(Li(NN(TStr)))) >>),
+  Scalar("Meta"),
+  Scalar("Stamp"),
+  Obj("Book", <<Key(<<FS("sn")>>)>>, <<>>, << Inacc(F("sn", NN(TID))), F("pages", TInt), FA("mood", TStr, "of", NN(Ty("Genre"))),
+                                             F("stamp", Ty("Stamp")), FA("extra", Ty("Meta"), "opts", Ty("Opts")) >>) >>)
+
+E7_optsA == ObjV(<<"deep", "keys">>, <<Bool(TRUE), Lst(<<Str("a")>>)>>)
+E7_optsB == ObjV(<<"deep", "keys">>, <<Bool(FALSE), Lst(<<>>)>>)
+E7_booksFn(all, sf, dr) == Fn("genre", <<Case(Str("SCIFI"), sf), Case(Str("DRAMA"), dr)>>, all)
+E7_findFn(a, b, c) == Fn("filter", << Case(ObjV(<<"genre">>, <<Str("SCIFI")>>), a),
+                                      Case(ObjV(<<"genre", "minPages">>, <<Str("DRAMA"), Num(100)>>), b),
+                                      Case(ObjV(<<"tags">>, <<Lst(<<Str("a"), Str("b")>>)>>), c) >>, Lst(<<>>))
+E7_idsFn(a, b) == Fn("ids", << Case(Lst(<<Str("n1")>>), a), Case(Lst(<<Str("n2"), Str("n1")>>), b), Case(Lst(<<>>), Lst(<<>>)) >>, Lst(<<Null>>))
+E7_mood(x, y) == Fn("of", <<Case(Str("SCIFI"), x), Case(Str("DRAMA"), y)>>, Null)
+E7_extra(x, y) == Fn("opts", <<Case(E7_optsA, x), Case(E7_optsB, y)>>, Null)
+E7_U1 == Uv("all-present", <<
+  O("Q", "Query", [books |-> E7_booksFn(Lst(<<Ref("k1"), Ref("k2")>>), Lst(<<Ref("k1")>>), Lst(<<Ref("k2")>>)),
+                   find |-> E7_findFn(Lst(<<Ref("k1")>>), Lst(<<Ref("k2")>>), Lst(<<Ref("k2"), Ref("k1")>>)),
+                   byIds |-> E7_idsFn(Lst(<<Ref("k1")>>), Lst(<<Ref("k2"), Ref("k1")>>))]),
+  O("k1", "Book", [sn |-> Str("n1"), title |-> Str("Dune"), genre |-> Str("SCIFI"),
+                   meta |-> ObjV(<<"a", "b">>, <<Num(1), Lst(<<Str("x"), Null, ObjV(<<"c">>, <<Bool(TRUE)>>)>>)>>),
+                   pages |-> Num(600), mood |-> E7_mood(Str("wow"), Str("meh")), stamp |-> Str("2020-01-01T00:00:00Z"),
+                   extra |-> E7_extra(ObjV(<<"k">>, <<Str("v")>>), Lst(<<Num(1), Num(2)>>))]),
+  O("k2", "Book", [sn |-> Str("n2"), title |-> Str("Emma"), genre |-> Str("DRAMA"), meta |-> Str("plain"),
+                   pages |-> Num(300), mood |-> E7_mood(Str("hm"), Str("yes")), stamp |-> Str("1815-12-23"),
+                   extra |-> E7_extra(Num(7), Bool(FALSE))]) >>)
+E7_U2 == Uv("nullable-nulls", <<
+  O("Q", "Query", [books |-> E7_booksFn(Lst(<<Ref("k1"), Ref("k2")>>), Lst(<<Ref("k1")>>), Lst(<<>>)),
+                   find |-> E7_findFn(Null, Lst(<<Ref("k2"), Null>>), Lst(<<Null>>)),
+                   byIds |-> E7_idsFn(Lst(<<Null>>), Lst(<<Ref("k2"), Null>>))]),
+  O("k1", "Book", [sn |-> Str("n1"), title |-> Str("Dune"), genre |-> Str("SCIFI"), meta |-> Null,
+                   pages |-> Null, mood |-> E7_mood(Null, Str("meh")), stamp |-> Null, extra |-> E7_extra(Null, ObjV(<<>>, <<>>))]),
+  O("k2", "Book", [sn |-> Str("n2"), title |-> Str("Emma"), genre |-> Str("DRAMA"), meta |-> Lst(<<>>),
+                   pages |-> Num(300), mood |-> E7_mood(Str("hm"), Null), stamp |-> Str("1815-12-23"), extra |-> E7_extra(Num(7), Null)]) >>)
+E7_U3 == Uv("null-in-nonnull", <<
+  O("Q", "Query", [books |-> E7_booksFn(Lst(<<Ref("k1"), Ref("k2")>>), Lst(<<Ref("k1")>>), Lst(<<Ref("k2")>>)),
+                   find |-> E7_findFn(Lst(<<Ref("k1")>>), Lst(<<Ref("k2")>>), Lst(<<Ref("k2"), Ref("k1")>>)),
+                   byIds |-> E7_idsFn(Lst(<<Ref("k1")>>), Lst(<<Ref("k2"), Ref("k1")>>))]),
+  O("k1", "Book", [sn |-> Str("n1"), title |-> Str("Dune"), genre |-> Str("SCIFI"), meta |-> Num(1),
+                   pages |-> Num(600), mood |-> E7_mood(Str("wow"), Str("meh")), stamp |-> Str("s1"), extra |-> E7_extra(Num(1), Num(2))]),
+  O("k2", "Book", [sn |-> Str("n2"), title |-> Null, genre |-> Null, meta |-> Num(2),
+                   pages |-> Num(300), mood |-> E7_mood(Str("hm"), Str("yes")), stamp |-> Str("s2"), extra |-> E7_extra(Num(3), Num(4))]) >>)
+E7_U4 == Uv("empty-lists", <<
+  O("Q", "Query", [books |-> E7_booksFn(Lst(<<>>), Lst(<<>>), Lst(<<>>)), find |-> E7_findFn(Lst(<<>>), Lst(<<>>), Lst(<<>>)),
+                   byIds |-> E7_idsFn(Lst(<<>>), Lst(<<>>))]) >>)
+
+E7 == Entry("values", <<E7_shop, E7_stats>>, <<E7_U1, E7_U2, E7_U3, E7_U4>>,
+  << Menu("Query.books", << <<>>, <<Arg("genre", EnumV("SCIFI"))>>, <<Arg("genre", Var("g"))>> >>),
+     Menu("Query.find", << <<Arg("filter", ObjV(<<"genre">>, <<EnumV("SCIFI")>>))>>,
+                           <<Arg("filter", ObjV(<<"genre", "minPages">>, <<Var("g"), Num(100)>>))>>,
+                           <<Arg("filter", Var("f"))>> >>),
+     Menu("Query.byIds", << <<Arg("ids", Lst(<<Str("n2"), Str("n1")>>))>>, <<Arg("ids", Lst(<<Var("one")>>))>>, <<Arg("ids", Var("ids"))>> >>),
+     Menu("Book.mood", << <<Arg("of", EnumV("DRAMA"))>>, <<Arg("of", Var("g"))>> >>),
+     Menu("Book.extra", << <<Arg("opts", E7_optsA)>>, <<Arg("opts", Var("o"))>> >>) >>,
+  << VarM("g", NN(Ty("Genre")), <<Str("DRAMA"), Str("SCIFI")>>),
+     VarM("f", NN(Ty("BookFilter")), <<ObjV(<<"tags">>, <<Lst(<<Str("a"), Str("b")>>)>>), ObjV(<<"genre">>, <<Str("SCIFI")>>)>>),
+     VarM("one", NN(TID), <<Str("n1"), Str("n3")>>),
+     VarM("ids", NN(Li(NN(TID))), <<Lst(<<Str("n1")>>), Lst(<<>>)>>),
+     VarM("o", Ty("Opts"), <<E7_optsB, E7_optsA>>) >>,
+  << Op(Doc(<< Field("books", "", <<Arg("genre", EnumV("DRAMA"))>>, <<>>,
+                     <<Fl("title"), Fl("genre"), Fl("meta"), Fl("stamp"), Field("mood", "", <<Arg("of", EnumV("SCIFI"))>>, <<>>, <<>>)>>) >>, <<>>, <<>>), <<>>),
+     Op(Doc(<< Field("find", "", <<Arg("filter", ObjV(<<"genre", "minPages">>, <<Var("g"), Num(100)>>))>>, <<>>,
+                     <<Fl("pages"), Field("extra", "", <<Arg("opts", Var("o"))>>, <<>>, <<>>)>>),
+               Field("byIds", "", <<Arg("ids", Lst(<<Var("one")>>))>>, <<>>, <<Fl("title"), Fl("pages")>>) >>, <<>>,
+            <<VarDef("g", NN(Ty("Genre")), Absent), VarDef("o", Ty("Opts"), Absent), VarDef("one", NN(TID), Absent)>>),
+        <<Bind("g", Str("DRAMA")), Bind("o", E7_optsA), Bind("one", Str("n1"))>>) >>)
+
+\* ============================================================================ E8 "mutations"
+\* a Mutation root split over two subgraphs; `bump` / `bumpR` add to the world's single counter and return it, so the
+\* SERIAL execution of root mutation fields in document order (GraphQL Oct-2021 6.2.2), also across subgraphs, is
+\* visible in `data`; mutation fields that return entities / value types continued in the other subgraph
+E8_accounts == SG("accounts", <<
+  Obj("Query", <<>>, <<>>, << F("me", Ty("User")) >>),
+  Obj("Mutation", <<>>, <<>>, << FA("bump", NN(TInt), "by", NN(TInt)), FA("touch", Ty("User"), "id", NN(TID)) >>),
+  Obj("User", <<Key(<<FS("id")>>)>>, <<>>, << F("id", NN(TID)), F("name", NN(TStr)) >>) >>)
+E8_reviews == SG("reviews", <<
+  Obj("Mutation", <<>>, <<>>, << FA("bumpR", NN(TInt), "by", NN(TInt)), FA("post", Ty("Review"), "body", NN(TStr)) >>),
+  Obj("User", <<Key(<<FS("id")>>)>>, <<>>, << F("id", NN(TID)), F("reviews", Li(NN(Ty("Review")))) >>),
+  Obj("Review", <<>>, <<>>, << F("body", NN(TStr)), F("author", Ty("User")) >>) >>)
+E8_M == O("M", "Mutation", [bump |-> Ctr("by"), bumpR |-> Ctr("by"),
+                            touch |-> Fn("id", <<Case(Str("1"), Ref("u1")), Case(Str("2"), Ref("u2"))>>, Null),
+                            post |-> Fn("body", <<Case(Str("hi"), Ref("r1"))>>, Ref("r2"))])
+E8_U1 == Uv("all-present", <<
+  O("Q", "Query", [me |-> Ref("u1")]), E8_M,
+  O("u1", "User", [id |-> Str("1"), name |-> Str("Ann"), reviews |-> Lst(<<Ref("r1")>>)]),
+  O("u2", "User", [id |-> Str("2"), name |-> Str("Bob"), reviews |-> Lst(<<Ref("r2"), Ref("r1")>>)]),
+  O("r1", "Review", [body |-> Str("hi"), author |-> Ref("u2")]),
+  O("r2", "Review", [body |-> Str("other"), author |-> Ref("u1")]) >>)
+E8_U2 == Uv("nullable-nulls", <<
+  O("Q", "Query", [me |-> Null]), E8_M,
+  O("u1", "User", [id |-> Str("1"), name |-> Str("Ann"), reviews |-> Null]),
+  O("u2", "User", [id |-> Str("2"), name |-> Str("Bob"), reviews |-> Lst(<<>>)]),
+  O("r1", "Review", [body |-> Str("hi"), author |-> Null]),
+  O("r2", "Review", [body |-> Str("other"), author |-> Ref("u2")]) >>)
+E8_U3 == Uv("null-in-nonnull", <<
+  O("Q", "Query", [me |-> Ref("u2")]), E8_M,
+  O("u1", "User", [id |-> Str("1"), name |-> Str("Ann"), reviews |-> Lst(<<Ref("r1")>>)]),
+  O("u2", "User", [id |-> Str("2"), name |-> Null, reviews |-> Lst(<<Ref("r2")>>)]),
+  O("r1", "Review", [body |-> Str("hi"), author |-> Ref("u2")]),
+  O("r2", "Review", [body |-> Null, author |-> Ref("u1")]) >>)
+
+E8 == Entry("mutations", <<E8_accounts, E8_reviews>>, <<E8_U1, E8_U2, E8_U3>>,
+  << Menu("Mutation.bump", << <<Arg("by", Num(1))>>, <<Arg("by", Num(100))>>, <<Arg("by", Var("n"))>> >>),
+     Menu("Mutation.bumpR", << <<Arg("by", Num(10))>>, <<Arg("by", Var("n"))>> >>),
+     Menu("Mutation.touch", << <<Arg("id", Str("1"))>>, <<Arg("id", Str("2"))>>, <<Arg("id", Var("uid"))>> >>),
+     Menu("Mutation.post", << <<Arg("body", Str("hi"))>>, <<Arg("body", Var("b"))>> >>) >>,
+  << VarM("n", NN(TInt), <<Num(3), Num(5)>>), VarM("uid", NN(TID), <<Str("2"), Str("7")>>), VarM("b", NN(TStr), <<Str("hi"), Str("zz")>>) >>,
+  << Op(Doc(<< Fo("me", <<Fl("name"), Fo("reviews", <<Fl("body"), Fo("author", <<Fl("name")>>)>>)>>) >>, <<>>, <<>>), <<>>),
+     Op(MDoc(<< Field("bump", "a", <<Arg("by", Num(1))>>, <<>>, <<>>), Field("bumpR", "b", <<Arg("by", Num(10))>>, <<>>, <<>>),
+                Field("bump", "c", <<Arg("by", Num(100))>>, <<>>, <<>>), Field("bumpR", "d", <<Arg("by", Var("n"))>>, <<>>, <<>>),
+                Field("touch", "", <<Arg("id", Str("2"))>>, <<>>, <<Fl("name"), Fo("reviews", <<Fl("body")>>)>>),
+                Field("post", "", <<Arg("body", Str("hi"))>>, <<>>, <<Fl("body"), Fo("author", <<Fl("name")>>)>>) >>, <<>>,
+             <<VarDef("n", NN(TInt), Absent)>>), <<Bind("n", Num(5))>>) >>)
+
+\* ============================================================================ E9 "iface"
+\* an interface defined in BOTH subgraphs with different fields (an interface field the current subgraph does not have
+\* must be fetched per concrete entity type: the abstract selection rewriter), a root field shared by two subgraphs, a
+\* value type shared by two subgraphs below entities
+E9_catalog == SG("catalog", <<
+  Obj("Query", <<>>, <<>>, << F("media", NN(Li(NN(Ty("Media"))))), F("latest", Ty("Media")) >>),
+  Iface("Media", << F("id", NN(TID)), F("title", TStr) >>),
+  Obj("Book", <<Key(<<FS("id")>>)>>, <<"Media">>, << F("id", NN(TID)), F("title", TStr), F("isbn", TStr) >>),
+  Obj("Film", <<Key(<<FS("id")>>)>>, <<"Media">>, << F("id", NN(TID)), F("title", TStr), F("director", Ty("Person")) >>),
+  Obj("Person", <<>>, <<>>, << F("name", NN(TStr)) >>) >>)
+E9_ratings == SG("ratings", <<
+  Obj("Query", <<>>, <<>>, << F("top", Li(Ty("Media"))), F("latest", Ty("Media")) >>),
+  Iface("Media", << F("id", NN(TID)), F("score", TInt) >>),
+  Obj("Book", <<Key(<<FS("id")>>)>>, <<"Media">>, << F("id", NN(TID)), F("score", TInt), F("blurb", TStr) >>),
+  Obj("Film", <<Key(<<FS("id")>>)>>, <<"Media">>, << F("id", NN(TID)), F("score", TInt), F("cast", Li(NN(Ty("Person")))) >>),
+  Obj("Person", <<>>, <<>>, << F("name", NN(TStr)) >>) >>)
+E9_U1 == Uv("all-present", <<
+  O("Q", "Query", [media |-> Lst(<<Ref("b1"), Ref("f1"), Ref("f2")>>), top |-> Lst(<<Ref("f1"), Ref("b1"), Ref("f1")>>), latest |-> Ref("f2")]),
+  O("b1", "Book", [id |-> Str("b1"), title |-> Str("Dune"), isbn |-> Str("i1"), score |-> Num(5), blurb |-> Str("sand")]),
+  O("f1", "Film", [id |-> Str("f1"), title |-> Str("Alien"), director |-> Ref("p1"), score |-> Num(4), cast |-> Lst(<<Ref("p2"), Ref("p1")>>)]),
+  O("f2", "Film", [id |-> Str("f2"), title |-> Str("Heat"), director |-> Ref("p2"), score |-> Num(3), cast |-> Lst(<<>>)]),
+  O("p1", "Person", [name |-> Str("Rid")]),
+  O("p2", "Person", [name |-> Str("Sig")]) >>)
+E9_U2 == Uv("nullable-nulls", <<
+  O("Q", "Query", [media |-> Lst(<<Ref("f1"), Ref("b1")>>), top |-> Lst(<<Null, Ref("b1"), Ref("f1")>>), latest |-> Null]),
+  O("b1", "Book", [id |-> Str("b1"), title |-> Null, isbn |-> Null, score |-> Null, blurb |-> Str("sand")]),
+  O("f1", "Film", [id |-> Str("f1"), title |-> Str("Alien"), director |-> Null, score |-> Num(4), cast |-> Null]) >>)
+E9_U3 == Uv("null-in-nonnull", <<
+  O("Q", "Query", [media |-> Lst(<<Ref("b1"), Ref("f1")>>), top |-> Lst(<<Ref("f1"), Ref("b1")>>), latest |-> Ref("f1")]),
+  O("b1", "Book", [id |-> Str("b1"), title |-> Str("Dune"), isbn |-> Str("i1"), score |-> Num(5), blurb |-> Str("sand")]),
+  O("f1", "Film", [id |-> Str("f1"), title |-> Str("Alien"), director |-> Ref("p1"), score |-> Num(4), cast |-> Lst(<<Ref("p1")>>)]),
+  O("p1", "Person", [name |-> Null]) >>)
+E9_U4 == Uv("empty-lists", <<
+  O("Q", "Query", [media |-> Lst(<<>>), top |-> Lst(<<>>), latest |-> Ref("b1")]),
+  O("b1", "Book", [id |-> Str("b1"), title |-> Str("Dune"), isbn |-> Str("i1"), score |-> Num(5), blurb |-> Null]) >>)
+E9 == Entry("iface", <<E9_catalog, E9_ratings>>, <<E9_U1, E9_U2, E9_U3, E9_U4>>, <<>>, <<>>,
+  << Op(Doc(<< Fo("top", <<Fl("id"), Fl("title"), Fl("score"), Inline("Book", <<>>, <<Fl("isbn"), Fl("blurb")>>)>>) >>, <<>>, <<>>), <<>>),
+     Op(Doc(<< Fo("media", <<Fl("score"), Inline("Film", <<>>, <<Fo("cast", <<Fl("name")>>), Fo("director", <<Fl("name")>>)>>)>>),
+               Fo("latest", <<Fl("__typename"), Fl("title"), Fl("score")>>) >>, <<>>, <<>>), <<>>) >>)
+
 \* ============================================================================ the catalog
-Catalog == <<[E1 EXCEPT !.broken = E1_broken], E2, E3, E4, E5, E6>>
+Catalog == <<[E1 EXCEPT !.broken = E1_broken], E2, E3, E4, E5, E6, E7, E8, E9>>
 Supers == TLCEval([i \in DOMAIN Catalog |-> SuperTypes(Catalog[i].sgs)])
 Subs == TLCEval([i \in DOMAIN Catalog |-> TLCEval([j \in DOMAIN Catalog[i].sgs |-> SubTypes(Catalog[i].sgs[j])])])
 
